@@ -46,6 +46,7 @@ type Contract struct {
 	HasMod   bool
 	Decr     *Clause
 	Loops    map[int]*LoopSpec
+	Snapshots [][2]string
 	Assumes  []*Clause
 	ExitUpdates [][3]*Sx // ghost assignments at exit: comp[index] := value
 	AssertBefore []*Clause // proved just before calls to a named callee (Label = callee|label)
@@ -78,7 +79,7 @@ type ContractSet struct {
 
 var clauseKeywords = map[string]bool{
 	"func": true, "iface": true, "extern": true, "lemma": true, "cover": true,
-	"use": true, "ghost": true, "requires": true, "ensures": true, "ensures-assumed": true, "maintains": true, "assert-before": true, "exit-update": true, "assumes": true, "modifies": true,
+	"use": true, "ghost": true, "requires": true, "ensures": true, "ensures-assumed": true, "maintains": true, "assert-before": true, "exit-update": true, "assumes": true, "snapshot": true, "modifies": true,
 	"decreases": true, "loop": true, "trusted": true, "inline": true, "noinline": true,
 	"implements": true, "tags": true, "params": true, "extra": true, "reveal": true,
 }
@@ -295,6 +296,16 @@ func (cs *ContractSet) parseFile(path string, pkgPath string, raw bool) error {
 				} else {
 					cur.Ensures = append(cur.Ensures, c)
 				}
+			case "snapshot":
+				// snapshot <label> after <callee suffix>: names the state right after the (first) call to that callee; (at <label> e) evaluates e there
+				label := toks[i]
+				i++
+				if i < len(toks) && toks[i] == "after" {
+					i++
+				}
+				callee := toks[i]
+				i++
+				cur.Snapshots = append(cur.Snapshots, [2]string{label, callee})
 			case "assumes":
 				// assumed at entry of the body, NOT checked at call sites: an argument made outside the verifier (listed in the evidence)
 				label := readLabel()
